@@ -53,6 +53,9 @@ var (
 type LevelDB struct {
 	ldb  *leveldb.DB
 	muTr sync.Mutex
+	// closed is set by Close under muTr: a write transaction in flight is waited for, a later
+	// one is refused instead of finding every bucket "absent".
+	closed bool
 }
 
 type batchPutValue struct {
@@ -168,12 +171,19 @@ func joinBucketPath(arr ...string) string {
 // Close
 // TODO: It is not safe to close a DB until all outstanding iterators are released.
 func (l *LevelDB) Close() error {
+	l.muTr.Lock()
+	defer l.muTr.Unlock()
+	l.closed = true
 	return l.ldb.Close()
 }
 
 // BeginTx ...
 func (l *LevelDB) BeginTx() (db.DBTransaction, error) {
 	l.muTr.Lock()
+	if l.closed {
+		l.muTr.Unlock()
+		return nil, leveldb.ErrClosed
+	}
 
 	return &transaction{
 		readOnly: false,
